@@ -315,6 +315,8 @@ class spec_class:
                 # `spec_cls` itself does not contain).
                 next_new = super(spec_cls, cls).__new__
                 if next_new is object.__new__:
+                    if args or kwargs:
+                        _check_object_new_arguments(cls)
                     return object.__new__(cls)
                 return next_new(cls, *args, **kwargs)
 
